@@ -92,6 +92,18 @@ CLAIMS = {
              'semantics of the conversions; enum/IntFlag construction rules; partial: float addition in unix_date not modelled '
              '(compared for sec < 2^31)', technique='Coq proof over generated tables + differential correspondence',
         ref='DESIGN.md §5 C16'),
+    'C03': dict(
+        text='Coq theorems c03_seek_first (tag scan stops after the FIRST occurrence), c03_whole_dump (for EVERY chunking, '
+             'thread map, filler/junk, block list: events = decodings of all records of all chunks in file order, thread map = '
+             "the file's, blocks = the (tag, payload) pairs, normal end), c03_chunking_independent, c03_list_sections "
+             '(kernel extensions / trace codes / log records concatenated in file order) and c03_single_sections; closed '
+             'under the global context. Two-stage correspondence (container by checksummed summaries, interpretation and '
+             'decoded logs value-exact) on dumps from a grammar; events-before-logs and table extension checked differentially.',
+        note='partial: plist decoding is trusted (plistlib.loads is a parameter of the model). trusted: Coq kernel+vm_compute; '
+             'Container.v / V3Meta.v hand models (construct combinators, BytesIO read/seek written out), the generated C16 '
+             'log-record model; harness',
+        technique='Coq proof (encoder/parser round trip by induction over chunks and blocks) + two-stage correspondence',
+        ref='DESIGN.md §5 C03'),
     'C12': dict(
         text='Coq theorems c12_events/sat_meaning/logs/no_logs_in_events/no_events_in_logs: for EVERY stream and EVERY '
              'configuration the filtered listings equal `filter` of the unfiltered listing by the stated predicate (order and '
